@@ -55,6 +55,12 @@ func checkNCReply(env *Env, nr *NCRun, j int, clause string) {
 		return
 	}
 	want := strings.TrimSpace(strings.ReplaceAll(nr.Sc.Server.Replies[rec.ReqIndex].Payload, "{MID}", reqs[rec.ReqIndex].MID))
+	if nr.Sc.Server.Echo && strings.Contains(rec.Result, "<hello") {
+		// known finding (see C08): echoed hello + beginning of the echoed request filed as reply
+		env.Fail("own-echo-returned-as-reply", "", "op %d (%s) returned the transport's echo of the client's own bytes: %q", j, rec.Kind, firstN(rec.Result, 300))
+
+		return
+	}
 	if rec.Result != want {
 		env.Fail(clause, rec.Kind, "op %d (%s, request %d) returned success with\n got %q\nwant %q", j, rec.Kind, rec.ReqIndex, firstN(rec.Result, 300), firstN(want, 300))
 	}
